@@ -113,7 +113,7 @@ def findZ (n d : Nat) : Nat → Nat → Nat
 
 /-- `⌊log10 (n/d)⌋` for `n, d > 0` -/
 def log10Floor (n d : Nat) : Int :=
-  if n ≥ d then (((natStr (n / d)).length - 1 : Nat) : Int) else -((findZ n d 400 1 : Nat) : Int)
+  if n ≥ d then (((digitsOf (n / d)).length - 1 : Nat) : Int) else -((findZ n d 400 1 : Nat) : Int)
 
 /-- `n/d` correctly rounded (half-even) to `p` significant decimal digits: `(D, t)`, value `D × 10^t` -/
 def roundDec (n d p : Nat) : Nat × Int :=
@@ -144,7 +144,7 @@ def zeros (k : Nat) : Str := List.replicate k 48
 def layout (ds : Str) (decpt : Int) : Str :=
   if decpt ≤ -4 ∨ decpt > 16 then
     let e := decpt - 1
-    let es := natStr e.natAbs
+    let es := digitsOf e.natAbs
     ds.take 1 ++ (if ds.length > 1 then 46 :: ds.drop 1 else []) ++ [101, if e < 0 then 45 else 43] ++
       (if es.length < 2 then 48 :: es else es)
   else if decpt ≤ 0 then [48, 46] ++ zeros (-decpt).toNat ++ ds
@@ -157,7 +157,7 @@ def F64.repr (x : F64) : Str :=
   else
     let c := (shortest x.num x.den 17 1).getD (roundDec x.num x.den 17)
     let (D, t) := stripZeros10 20 c.1 c.2
-    let ds := natStr D
+    let ds := digitsOf D
     (if x.neg then [45] else []) ++ layout ds ((ds.length : Int) + t)
 
 /-! ## Python numbers -/
@@ -233,9 +233,12 @@ def PyN.truediv (a b : PyN) : Except Err PyN :=
 
 def PyN.mulInt (a : PyN) (k : Int) : Except Err PyN := PyN.mul a (.int k)
 
+/-- `str(int)` (the digits by repeated division: `RTV.Dec.digitsOf`, kernel-friendly) -/
+def intStr (v : Int) : Str := if v < 0 then 45 :: digitsOf v.natAbs else digitsOf v.natAbs
+
 /-- `str(x)` -/
 def PyN.str : PyN → Str
-  | .int v => Dec.intStr v
+  | .int v => intStr v
   | .flt x => x.repr
 
 /-- `Decimal(x)`: exact for both -/
@@ -695,11 +698,18 @@ def parse (c : Cfg) (data text : Str) : Except Err (Val × Str) :=
 
 /-! ## the two configurations, from the regenerated data -/
 
+/-- The tables of the running interpreter / regex engine, searched linearly (`RTV.Py.inRanges`: cheap for the kernel;
+the other drivers use the binary search `inRangesArr` over the same regenerated arrays). -/
 def pyDigits : DigitTab where
-  isDigit c := inRangesArr RTV.Gen.digitRanges c
-  value c := (RTV.Gen.NumDigits.table.find? fun (lo, hi, _) => lo ≤ c && c ≤ hi).bind fun (_, _, b) => b.map (c - ·)
+  isDigit c := inRanges RTV.Gen.digitRanges.toList c
+  value c := (RTV.Gen.NumDigits.table.toList.find? fun (lo, hi, _) => lo ≤ c && c ≤ hi).bind fun (_, _, b) => b.map (c - ·)
 
-def pySpace (c : Nat) : Bool := inRangesArr RTV.Gen.spaceRanges c
+def pySpace (c : Nat) : Bool := inRanges RTV.Gen.spaceRanges.toList c
+
+def reTablesL : Tables where
+  digit c := inRanges RTV.Gen.reDigitRanges.toList c
+  word c := inRanges RTV.Gen.reWordRanges.toList c
+  space c := inRanges RTV.Gen.reSpaceRanges.toList c
 
 def pyLower (s : Str) : Str :=
   RTV.Preprocess.lowerWith (RTV.Preprocess.lowerFull RTV.Gen.lowerPairs RTV.Gen.lowerExpanding) s
@@ -709,7 +719,7 @@ def mkDigits (ints : List (Str × Nat)) (half : List (Str × Nat × Nat)) : List
 
 open RTV.Gen in
 def zhCfg : Cfg where
-  T := reTables
+  T := reTablesL
   tab := pyDigits
   isSpace := pySpace
   lower := pyLower
@@ -744,7 +754,7 @@ def zhCfg : Cfg where
 
 open RTV.Gen in
 def jaCfg : Cfg where
-  T := reTables
+  T := reTablesL
   tab := pyDigits
   isSpace := pySpace
   lower := pyLower
